@@ -327,6 +327,51 @@ type TeletextOptions struct {
 	PID  int
 }
 
+// teletextReader makes any reader look to the demuxer like one that fills every read and can be rewound to its start:
+// the demuxer sizes the packets from a single Read and the teletext PID is looked up before rewinding, which otherwise
+// makes the result depend on the reader being seekable and on the size of its reads
+type teletextReader struct {
+	buf  []byte // what has been read so far, as long as the demuxer may still rewind
+	keep bool
+	pos  int
+	r    io.Reader
+}
+
+// Read implements the io.Reader interface
+func (t *teletextReader) Read(p []byte) (n int, err error) {
+	// Replay what has been read before the rewind
+	if t.pos >= 0 && t.pos < len(t.buf) {
+		n = copy(p, t.buf[t.pos:])
+		t.pos += n
+		if n == len(p) {
+			return
+		}
+	}
+
+	// Fill the rest
+	var m int
+	m, err = io.ReadFull(t.r, p[n:])
+	if t.keep {
+		t.buf = append(t.buf, p[n:n+m]...)
+		t.pos = len(t.buf)
+	} else if m > 0 {
+		t.buf, t.pos = nil, -1
+	}
+	if n += m; err == io.ErrUnexpectedEOF || (err == io.EOF && n > 0) {
+		err = nil
+	}
+	return
+}
+
+// Seek implements the io.Seeker interface, only rewinding to the start is possible
+func (t *teletextReader) Seek(offset int64, whence int) (int64, error) {
+	if offset != 0 || whence != io.SeekStart || t.pos < 0 {
+		return 0, errors.New("astisub: teletext reader can only be rewound to its start and before it is released")
+	}
+	t.pos = 0
+	return 0, nil
+}
+
 // ReadFromTeletext parses a teletext content
 // http://www.etsi.org/deliver/etsi_en/300400_300499/300472/01.03.01_60/en_300472v010301p.pdf
 // http://www.etsi.org/deliver/etsi_i_ets/300700_300799/300706/01_60/ets_300706e01p.pdf
@@ -335,7 +380,8 @@ type TeletextOptions struct {
 func ReadFromTeletext(r io.Reader, o TeletextOptions) (s *Subtitles, err error) {
 	// Init
 	s = &Subtitles{}
-	var dmx = astits.NewDemuxer(context.Background(), r)
+	var tr = &teletextReader{keep: true, r: r}
+	var dmx = astits.NewDemuxer(context.Background(), tr)
 
 	// Get the teletext PID
 	var pid uint16
@@ -366,6 +412,9 @@ func ReadFromTeletext(r io.Reader, o TeletextOptions) (s *Subtitles, err error) 
 			err = fmt.Errorf("astisub: fetching next data failed: %w", err)
 			return
 		}
+
+		// The demuxer has sized its packets and won't rewind anymore
+		tr.keep = false
 
 		// The demuxer returns neither data nor error when the last packets of the stream don't make up any data
 		if d == nil {
